@@ -442,7 +442,8 @@ def _check(case, v):
     path = ".".join(case["groups"] + [case["name"]])
     if case.get("prelude"):
         n_, _v, u_ = CUSTOM[case["dim"]]
-        pre = f"$unit {n_} = {case['prelude']} {u_}\nw float = 1 {u_}\nw = 3 [{n_}]"
+        # (both directions of the conversion are used by the other text)
+        pre = f"$unit {n_} = {case['prelude']} {u_}\nw float = 1 {u_}\nw = 3 [{n_}]\nz float = 1 [{n_}]\nz = 5 {u_}"
         text = f"# ---- an earlier parse in the same process ----\n{pre}\n# ---- this parse ----\n" + text
         try:
             with DIP(name=f"c14_{next(_uid)}") as p0:
@@ -462,6 +463,13 @@ def _check(case, v):
             p.add_string(stage1)
             env = p.parse()
         if stage2 is not None:
+            if case.get("prelude"):
+                # the unrelated text is parsed once more BETWEEN the two stages: the returned environment carries its
+                # own definition of the unit, whatever other parsers did in the meantime
+                with DIP(name=f"c14_{next(_uid)}") as p1:
+                    p1.add_string(pre)
+                    p1.parse().data()
+                v.label("unrelated_parse_between_the_stages")
             with DIP(env, name=f"c14_{next(_uid)}") as p2:
                 p2.add_string(stage2)
                 env = p2.parse()
